@@ -30,3 +30,5 @@ import CalmVerif.Props.C20
 #check @CalmVerif.Props.C20.level_is_depth_partial
 #print axioms CalmVerif.Props.C20.newline_handler_indents_by_level
 #check @CalmVerif.Props.C20.newline_handler_indents_by_level
+#print axioms CalmVerif.Props.C20.fuel_is_only_a_recursion_device
+#check @CalmVerif.Props.C20.fuel_is_only_a_recursion_device
